@@ -415,6 +415,7 @@ class Executor:
         self.solver.set("timeout", 20000)
         self.assumptions = []  # type-validity facts about symbolic inputs (enum discriminants in range)
         self.models = []  # obligation-specific call models: (regex, fn(ex, st, callee, args, argvals, dest_ty) -> value)
+        self.stop_calls = None  # regex: a path ends (end="stopped") when it reaches such a call
         self.on_call = None  # optional hook(ex, st, callee, depth) run at every call terminator (schedule points)
 
     # ---- place handling -------------------------------------------------------------
@@ -1260,6 +1261,10 @@ class Executor:
                     argvals.append(None)
             rec = [callee, argvals, list(st.cond), None]
             st.calls.append(rec)
+            if self.stop_calls is not None and re.search(self.stop_calls, callee):
+                # the obligation is about the code up to here (e.g. the rest of one loop iteration)
+                st.end = "stopped"
+                return [(st, None)]
             if self.on_call is not None:
                 self.on_call(self, st, callee, depth)
             r = None
